@@ -429,6 +429,7 @@ class Forest:
         self.handler_calls = 0
         self.raise_at = case.get('faults', {}).get('raise_in_handler')
         self.events = []         # (receiver id, {path str: (old, new)})
+        self.unattributed = set()   # indices into events whose receiver could not be derived
         self.fault_fired = 0
         self.moved = []          # indices of roots handed over as arguments by the current op
         self.current_root = None
@@ -445,7 +446,9 @@ class Forest:
                     root = u.target.sym_root
                     recv = pg.KeyPath(list(u.path.keys[:n])).query(root) if n else root
                 except Exception:  # pylint: disable=broad-except
-                    pass
+                    # the updated node was moved / detached later in the same batch:
+                    # the receiver cannot be told apart from its clones any more
+                    self.unattributed.add(len(self.events))
                 break
             self._on_event(recv, updates)
         return cb
@@ -1179,6 +1182,7 @@ def run_case(case: dict, prop=None):
             keep_alive.append(pre_nodes)
             oracle.before(step, op, pre)
             del forest.events[:]
+            forest.unattributed.clear()
             fired0 = forest.fault_fired
             out = execute(forest, op)
             if out.status == 'skipped':
@@ -2576,9 +2580,11 @@ class C09Oracle(OracleBase):
                 a and a[0] in ('missing', 'insertion') for a in _arg_descs(op)) or \
                 any(v and v[0] == 'insertion' for _, v in op['a'].get('paths', []))
             got = {}
-            for rid, upd in events:
-                got.setdefault(rid, []).append(upd)
             batch_shift = k == 'rebind' and shifting
+            for ei, (rid, upd) in enumerate(events):
+                if batch_shift and ei in f.unattributed:
+                    continue
+                got.setdefault(rid, []).append(upd)
             for rid, ups in got.items():
                 if rid not in expected and batch_shift:
                     continue      # receivers move while the batch is applied: not judged
